@@ -32,6 +32,7 @@ type Req struct {
 	Alias     bool       `json:"alias,omitempty"`     // use the deprecated alias of the entry point
 	Leaks     bool       `json:"leaks,omitempty"`     // after the call, wait for gtree goroutines to settle and report those left
 	ReadFail  *int       `json:"readfail,omitempty"`  // the reader delivers this many bytes and then fails with a sentinel error
+	ReadOnce  bool       `json:"readonce,omitempty"`  // ... once: read again, it delivers the rest of the document (a timeout, not a broken pipe)
 	WFault    *WFault    `json:"wfault,omitempty"`    // the writer refuses one Write call
 	OptMode   bool       `json:"optmode,omitempty"`   // the options of the call are exactly OptSeq (possibly empty)
 	OptSeq    []string   `json:"optseq,omitempty"`    // the options of the call, in this order (Options.tla's tokens), after WithTargetDir(jail/A); jail holds A and B
